@@ -34,14 +34,23 @@ Ltac x_cases :=
           end);
   try (exfalso; lra).
 
+Ltac x_red := cbn [xadd xsub xmul xdiv xopp xltb xleb xlog1p xln xscale_inf].
+
+Ltac x_step :=
+  x_red;
+  match goal with
+  | |- context [Req_EM_T ?a ?b] => destruct (Req_EM_T a b)
+  | |- context [Rlt_dec ?a ?b] => destruct (Rlt_dec a b)
+  | |- context [Rle_dec ?a ?b] => destruct (Rle_dec a b)
+  end;
+  try (exfalso; lra).
+
 Ltac x_fin :=
-  x_proj; rewrite ?ofZ_X;
-  cbn [xadd xsub xmul xdiv xopp xltb xleb xlog1p xln];
-  unfold Rltb, Rleb;
-  x_cases;
+  x_proj; rewrite ?ofZ_X; unfold Rltb, Rleb;
+  repeat x_step; x_red;
   first [ reflexivity
         | (f_equal; first [lra | (unfold Rdiv; ring) | (field; lra)
-                           | (kv_ln_norm; first [reflexivity | lra | (unfold Rdiv; ring)])
+                           | (kv_ln_norm; first [reflexivity | lra | (unfold Rdiv; ring) | (field; lra)])
                            | (repeat f_equal; first [lra | (unfold Rdiv; ring) | (field; lra)])]) ].
 
 (* the value kernels on finite numbers *)
@@ -60,23 +69,37 @@ Lemma KX_loglam_stable ai : -1 < ai -> k_loglam_stable XNum (XF ai) = XF (ln (1 
 Proof. intros H. unfold k_loglam_stable. x_fin. Qed.
 Lemma KX_tildealpha ai a opa :
   opa <> 0 -> k_tildealpha XNum (XF ai) (XF a) (XF opa) = XF ((ai - a) / opa).
-Proof. intros H. unfold k_tildealpha. x_proj. cbn [xadd xsub xopp xdiv]. x_cases; [contradiction|]. f_equal. lra. Qed.
+Proof. intros H. unfold k_tildealpha. x_proj. cbn [xadd xsub xopp xdiv]. x_cases; try contradiction. first [reflexivity | (f_equal; lra) | (f_equal; unfold Rdiv; ring)]. Qed.
 Lemma KX_loglam_unstable a ta :
   -1 < a -> k_loglam_unstable XNum (XF a) (XF ta) = XF (ln (1 + a) + ta - / 2 * ta * ta).
 Proof. intros H. unfold k_loglam_unstable. x_fin. Qed.
 Lemma KX_Xi r N : N <> 0 -> k_Xi XNum (XF r) (XF N) = XF ((r - 1) / N).
 Proof.
   intros H. unfold k_Xi. x_proj. rewrite ?ofZ_X. cbn [xadd xsub xopp xdiv].
-  x_cases; [contradiction|]. f_equal. lra.
+  x_cases; try contradiction. first [reflexivity | (f_equal; lra) | (f_equal; unfold Rdiv; ring)].
 Qed.
 Lemma KX_log_lambda N N' ns s :
   N <> 0 ->
   k_log_lambda XNum (XF N) (XF N') (XF ns) (XF s)
   = xadd (XF s) (xmul (XF (N - N')) (xlog1p (XF (- ns / N)))).
 Proof.
-  intros H. unfold k_log_lambda. x_proj. cbn [xsub xopp xadd xdiv].
-  destruct (Req_EM_T N 0); [contradiction|].
-  replace (N + - N') with (N - N') by lra. reflexivity.
+  intros H. unfold k_log_lambda.
+  first
+    [ (x_proj; cbn [xsub xopp xadd xdiv];
+       destruct (Req_EM_T N 0); [contradiction|];
+       replace (N + - N') with (N - N') by lra; reflexivity)
+    | (* an equivalent rewrite of the source line: split every decision on both sides *)
+      (x_proj; rewrite ?ofZ_X; unfold Rltb, Rleb;
+       repeat (x_red;
+               match goal with
+               | |- context [Req_EM_T ?a ?b] => destruct (Req_EM_T a b)
+               | |- context [Rlt_dec ?a ?b] => destruct (Rlt_dec a b)
+               end;
+               try contradiction; try (exfalso; unfold Rdiv in *; lra));
+       x_red;
+       first [ reflexivity
+             | (f_equal; kv_ln_norm; first [reflexivity | lra | (unfold Rdiv; ring) | (field; lra)])
+             | (exfalso; unfold Rdiv in *; nra) ]) ].
 Qed.
 
 (* one event *)
